@@ -262,9 +262,14 @@ HOSTILE_FMT = [b'"q"', b"a:b", b"a: b", b"#c", b"a #c", b"back\\slash", b"y", b"
 HOSTILE_FS = [b".", b"..", b"a/b", b"/abs", b"a/", b"../x", b"../../esc", b"x" * 256, b"x" * 255, b"./a", b"a/../b",
               b"\xff", b"nul\x00", b"...", b"/", b"//", b"./", b"../", b"/.", b"a//b", b". ", b" .", b".. "]
 
+# names that differ only by case or by Unicode case folding (Kelvin sign / k, long s / s): distinct nodes
+CASEY = [b"Makefile", b"makefile", b"MAKEFILE", b"README", b"Readme", b"readme", b"a", b"A", b"k", b"K", "\u212a".encode(),
+         b"s", "\u017f".encode(), b"src", b"SRC", "\u00e9".encode(), "\u00c9".encode(), "\u03c3".encode(), "\u03c2".encode(), "\u03a3".encode()]
+
 POOLS = {
     "ascii": ASCII_WORDS,
-    "mixed": ASCII_WORDS * 3 + BULLETY + UNICODE + BLANKY,
+    "mixed": ASCII_WORDS * 3 + BULLETY + UNICODE + BLANKY + CASEY,
+    "casey": CASEY,
     "hostile_fmt": ASCII_WORDS + HOSTILE_FMT * 2 + UNICODE,
     "fs": ASCII_WORDS * 4 + [b"f.go", b"g.go", b"Makefile", b"x.md", b"o", b"lib.o"],
     "fs_hostile": ASCII_WORDS * 3 + HOSTILE_FS,
@@ -276,6 +281,17 @@ POOLS = {
 
 def name_ok(n):
     return len(n) > 0 and b"\n" not in n and not n.endswith(b"\r")
+
+
+def case_variant(n):
+    try:
+        t = n.decode("utf-8")
+    except UnicodeDecodeError:
+        return n
+    v = t.swapcase()
+    if v == t or not name_ok(v.encode()):
+        v = t.replace("k", "\u212a") if "k" in t else t
+    return v.encode()
 
 
 def gen_forest(rng, max_roots=5, max_nodes=30, max_depth=7, fan=6, dup_prob=0.3, pool="mixed"):
@@ -293,6 +309,8 @@ def gen_forest(rng, max_roots=5, max_nodes=30, max_depth=7, fan=6, dup_prob=0.3,
                 return
             if used and rng.random() < dup_prob:
                 nm = rng.choice(used)
+            elif used and rng.random() < 0.12:
+                nm = case_variant(rng.choice(used))     # a DIFFERENT name: equal only under case folding
             else:
                 nm = rng.choice(names)
             used.append(nm)
@@ -438,7 +456,10 @@ def items_arg(items):
 BF_DEFAULT = ("└──".encode(), b"    ", "├──".encode(), "│   ".encode())
 BF_CHOICES = [BF_DEFAULT, (b"+--", b"    ", b"|--", b"|   "), (b"", b"", b"", b""),
               ("🌿".encode(), "  ".encode(), "🌱".encode(), "┆ ".encode()), (b"L", b"", b"M", b"i"),
-              (b"`-", b" ", b"|-", b"|")]
+              (b"`-", b" ", b"|-", b"|"),
+              # connectors of DIFFERENT byte lengths for last / intermediate nodes
+              (b"`---", b"   ", b"|-", b"|  "), (b"\\", b"", b"+---", b"|"), (b"", b"  ", b"*", b"."),
+              ("└".encode(), b" ", b"+-", "│ ".encode())]
 
 
 def bf_args(bf):
